@@ -77,57 +77,122 @@ def _rot(rng):
     return q
 
 
-def build_coords(c, rng):
-    """Random coordinate values for configuration c (dict o,t,s,m,x).
+CANON_PER_PIXEL = ('position', 'scattered_beam', 'L2', 'Ltotal', 'two_theta', 'final_energy')
+CANON_SCALAR = ('source_position', 'sample_position', 'incident_beam', 'L1', 'incident_energy')
 
-    Returns (coords: name -> scipp Variable, S, T).  Supplied values are independent random numbers,
-    so e.g. a supplied L1 differs from |incident_beam| and from |sample - source|: which of them the
-    implementation used is visible in the result.
+
+def case_layout(c, seed):
+    """Layout / listing-order / history options of a case (HARDENING items 2, 3, 6, 7, 8): a
+    deterministic function of (seed, configuration), drawn from its own random stream.
+
+    scheme  'canon'  - the textbook layout: beam geometry scalar, detector geometry per spectrum
+            'scalar' - a single-pixel instrument: every geometry / energy coordinate is 0-d; the data is
+                       1-d (no spectrum dimension) or has spectra that share the geometry
+            'pixel'  - everything that is per spectrum in 'canon' plus a random subset of the normally
+                       scalar coordinates (source / sample position, incident beam, L1, incident energy)
+    The layouts stay inside dims(incident beam) <= dims(scattered beam): the opposite case (a beam per
+    spectrum meeting a single scattered beam) is not needed by any reading of the property.
+    S, T    number of spectra / origin points (0 = an empty bank / empty axis, 1 = single-element inputs)
+    data_t  the data array is stored as [origin, spectrum];  origin_t: a 2-d origin coordinate is stored
+            with the other dimension order than the data
+    shuffle coordinates are inserted in a random order;  items: the Dataset has 1 or 2 items
+    order   which of deduce_conversion_graph / convert is called first on the fresh objects"""
+    r = np.random.default_rng([case_seed(seed, c) & 0xFFFFFFFF, 0xC02])
+    u = r.random()
+    scheme = 'canon' if u < 0.4 else ('scalar' if u < 0.6 else 'pixel')
+    sizes = (0, 1, 1, 2, 2, 2, 2, 2, 3, 3, 3, 3, 3, 3, 3, 3)    # empty and single-element inputs are admissible
+    lay = {'scheme': scheme, 'S': int(r.choice(sizes)), 'T': int(r.choice(sizes)),
+           'edges': bool(r.integers(0, 2)), 'two_d': bool(r.integers(0, 4) == 0),
+           'data_t': bool(r.random() < 0.3), 'origin_t': bool(r.integers(0, 2)),
+           'shuffle': bool(r.integers(0, 2)), 'items': int(r.choice((1, 2, 2))),
+           'order': 'deduce_first' if r.integers(0, 2) else 'convert_first',
+           'extra_pp': [n for n in CANON_SCALAR if r.random() < 0.5] if scheme == 'pixel' else [],
+           'data_spectrum': True}
+    if scheme == 'scalar' and not lay['two_d'] and r.integers(0, 2):
+        lay['data_spectrum'] = False
+    lay['perm'] = [int(x) for x in r.permutation(16)]
+    return lay
+
+
+def layout_tag(lay):
+    return lay['scheme']
+
+
+def build_coords(c, rng, lay=None):
+    """Random coordinate values for configuration c (dict o,t,s,m,x) in layout `lay`.
+
+    Returns (coords: name -> scipp Variable in insertion order, S, T).  Supplied values are independent
+    random numbers, so e.g. a supplied L1 differs from |incident_beam| and from |sample - source|: which
+    of them the implementation used is visible in the result.
     Ranges (soundness): lengths 0.5..14 m, tof 1e4..5e4 us (so that t - t0 >= 2.9 ms for every
     admissible L and E >= 20 meV: the NaN region of energy_transfer is never touched),
     two_theta in [0.2, 2.9] rad, all other quantities positive and O(1..100)."""
     import scipp as sc
 
+    if lay is None:
+        lay = {'scheme': 'canon', 'S': int(rng.integers(2, 4)), 'T': int(rng.integers(2, 4)),
+               'edges': bool(rng.integers(0, 2)), 'two_d': bool(rng.integers(0, 4) == 0), 'data_t': False,
+               'origin_t': False, 'shuffle': False, 'items': 2, 'order': 'deduce_first', 'extra_pp': [],
+               'data_spectrum': True, 'perm': list(range(16))}
     o = c['o']
-    S = int(rng.integers(2, 4))
-    T = int(rng.integers(2, 4))
-    edges = bool(rng.integers(0, 2))
+    S, T = lay['S'], lay['T']
+    edges = lay['edges']
     n_o = T + 1 if edges else T
     lo, hi = {'tof': (1.0e4, 5.0e4), 'wavelength': (0.5, 6.0), 'energy': (5.0, 100.0),
               'Q': (0.5, 10.0)}[o]
-    two_d = (not edges) and rng.integers(0, 4) == 0
+    two_d = lay['two_d'] and lay['data_spectrum']
     if two_d:
         ov = np.sort(rng.uniform(lo, hi, size=(S, n_o)), axis=1)
-        origin = sc.array(dims=['spectrum', o], values=ov, unit=ORIGIN_UNIT[o])
+        if lay['origin_t']:
+            origin = sc.array(dims=[o, 'spectrum'], values=np.ascontiguousarray(ov.T), unit=ORIGIN_UNIT[o])
+        else:
+            origin = sc.array(dims=['spectrum', o], values=ov, unit=ORIGIN_UNIT[o])
     else:
         origin = sc.array(dims=[o], values=np.sort(rng.uniform(lo, hi, size=n_o)), unit=ORIGIN_UNIT[o])
     coords = {o: origin}
+    if lay['scheme'] == 'scalar':
+        per_pixel = set()
+    else:
+        per_pixel = set(CANON_PER_PIXEL) | set(lay['extra_pp'])
+
+    def shp(name):
+        return (S,) if name in per_pixel else ()
 
     def far(make, ref, dmin=0.5):
-        for _ in range(100):
+        for _ in range(200):
             v = make()
             if np.all(np.linalg.norm(v - ref, axis=-1) >= dmin):
                 return v
         raise RuntimeError('could not draw separated positions')
 
-    sample = _unit_vec_box(rng)
-    source = far(lambda: _unit_vec_box(rng), sample)
-    pos = far(lambda: _unit_vec_box(rng, (S,)), sample)
+    def vec(name, v):
+        if name in per_pixel:
+            return sc.vectors(dims=['spectrum'], values=np.asarray(v).reshape(S, 3), unit='m')
+        return sc.vector(np.asarray(v).reshape(3), unit='m')
+
+    def num(name, v, unit):
+        if name in per_pixel:
+            return sc.array(dims=['spectrum'], values=np.asarray(v, dtype='float64').reshape(S), unit=unit)
+        return sc.scalar(float(np.asarray(v).reshape(())), unit=unit)
+
+    sample = _unit_vec_box(rng, shp('sample_position'))
+    source = far(lambda: _unit_vec_box(rng, shp('source_position')), sample)
+    pos = far(lambda: _unit_vec_box(rng, shp('position')), sample)
     vals = {
-        'position': lambda: sc.vectors(dims=['spectrum'], values=pos, unit='m'),
-        'source_position': lambda: sc.vector(source, unit='m'),
-        'sample_position': lambda: sc.vector(sample, unit='m'),
-        'incident_beam': lambda: sc.vector(far(lambda: _unit_vec_box(rng), np.zeros(3)), unit='m'),
-        'scattered_beam': lambda: sc.vectors(dims=['spectrum'],
-                                             values=far(lambda: _unit_vec_box(rng, (S,)), np.zeros(3)),
-                                             unit='m'),
-        'L1': lambda: sc.scalar(float(rng.uniform(2.0, 10.0)), unit='m'),
-        'L2': lambda: sc.array(dims=['spectrum'], values=rng.uniform(0.5, 4.0, size=S), unit='m'),
-        'Ltotal': lambda: sc.array(dims=['spectrum'], values=rng.uniform(3.0, 14.0, size=S), unit='m'),
-        'two_theta': lambda: sc.array(dims=['spectrum'], values=rng.uniform(0.2, 2.9, size=S), unit='rad'),
-        'incident_energy': lambda: sc.scalar(float(rng.uniform(20.0, 100.0)), unit='meV'),
-        'final_energy': lambda: sc.array(dims=['spectrum'], values=rng.uniform(20.0, 100.0, size=S),
-                                         unit='meV'),
+        'position': lambda: vec('position', pos),
+        'source_position': lambda: vec('source_position', source),
+        'sample_position': lambda: vec('sample_position', sample),
+        'incident_beam': lambda: vec('incident_beam',
+                                     far(lambda: _unit_vec_box(rng, shp('incident_beam')), np.zeros(3))),
+        'scattered_beam': lambda: vec('scattered_beam',
+                                      far(lambda: _unit_vec_box(rng, shp('scattered_beam')), np.zeros(3))),
+        'L1': lambda: num('L1', rng.uniform(2.0, 10.0, size=shp('L1')), 'm'),
+        'L2': lambda: num('L2', rng.uniform(0.5, 4.0, size=shp('L2')), 'm'),
+        'Ltotal': lambda: num('Ltotal', rng.uniform(3.0, 14.0, size=shp('Ltotal')), 'm'),
+        'two_theta': lambda: num('two_theta', rng.uniform(0.2, 2.9, size=shp('two_theta')), 'rad'),
+        'incident_energy': lambda: num('incident_energy', rng.uniform(20.0, 100.0, size=shp('incident_energy')),
+                                       'meV'),
+        'final_energy': lambda: num('final_energy', rng.uniform(20.0, 100.0, size=shp('final_energy')), 'meV'),
     }
     for name in GEO11:  # draw in fixed order so that values do not depend on the mask
         v = vals[name]()
@@ -139,18 +204,31 @@ def build_coords(c, rng):
         b = np.triu(rng.uniform(0.05, 0.2, size=(3, 3))) + np.diag(rng.uniform(0.2, 0.5, size=3))
         coords['b_matrix'] = sc.spatial.linear_transform(value=b, unit='1/angstrom')
         coords['sample_rotation'] = sc.spatial.linear_transform(value=_rot(rng))
+    if lay['shuffle']:      # listing order: the API does not ask for any order of the coordinates
+        names = list(coords)
+        order = [i for i in lay['perm'] if i < len(names)]
+        coords = {names[i]: coords[names[i]] for i in order}
     return coords, S, T
 
 
-def build_containers(c, seed):
+def build_containers(c, seed, lay=None):
     import scipp as sc
 
     rng = np.random.default_rng(case_seed(seed, c))
-    coords, S, T = build_coords(c, rng)
+    coords, S, T = build_coords(c, rng, lay)
     o = c['o']
-    data = sc.array(dims=['spectrum', o], values=rng.uniform(0.0, 10.0, size=(S, T)), unit='counts')
+    if lay is not None and not lay['data_spectrum']:
+        data = sc.array(dims=[o], values=rng.uniform(0.0, 10.0, size=(T,)), unit='counts')
+    elif lay is not None and lay['data_t']:
+        data = sc.array(dims=[o, 'spectrum'], values=rng.uniform(0.0, 10.0, size=(T, S)), unit='counts')
+    else:
+        data = sc.array(dims=['spectrum', o], values=rng.uniform(0.0, 10.0, size=(S, T)), unit='counts')
     da = sc.DataArray(data, coords=coords)
-    ds = sc.Dataset({'a': da, 'b': da * sc.scalar(2.0)})
+    # the Dataset gets its own buffers: what one call does to its operands must not leak into the other
+    items = {'a': da.copy(deep=True)}
+    if lay is None or lay['items'] == 2:
+        items['b'] = da.copy(deep=True) * sc.scalar(2.0)
+    ds = sc.Dataset(items)
     return da, ds
 
 
@@ -282,28 +360,24 @@ def _close(got, want, nelem):
     return worst <= VALUE_RTOL, worst
 
 
-def evaluate_provenance(prov: dict, inputs: dict, result_coords, o):
-    """Evaluate the spec's provenance tree (node -> kernel) with the reference formulas on the
-    supplied values and compare every computed node that exists in `result_coords`.
-
-    Returns (all_ok, worst_relative_error, first_bad_node)."""
-    import scipp as sc
-
+def reference_values(prov: dict, inputs: dict, o):
+    """Evaluate the spec's provenance tree (node -> kernel) with the reference formulas on the supplied
+    values (harness-only arithmetic: an exception here is a harness problem, not a verdict).
+    Returns name -> normal-form array for the supplied and the computed nodes."""
     global _REF
     if _REF is None:
         _REF = reference_kernels()
     have = {n: to_np(v, o) for n, v in inputs.items()}
     todo = dict(prov)
-    ok, worst, bad = True, 0.0, None
     guard = 0
     while todo:
         guard += 1
         if guard > 50:
-            return False, float('inf'), 'provenance tree not evaluable'
+            raise RuntimeError(f'provenance tree not evaluable: {sorted(todo)} from {sorted(have)}')
         for node, kernel in list(todo.items()):
             f = _REF.get(kernel)
             if f is None:
-                return False, float('inf'), f'unknown kernel {kernel}'
+                raise RuntimeError(f'unknown kernel {kernel}')
             args = list(inspect.signature(f).parameters)
             if not all(a in have for a in args):
                 continue
@@ -312,22 +386,39 @@ def evaluate_provenance(prov: dict, inputs: dict, result_coords, o):
                 have[k] = v
                 todo.pop(k, None)
             todo.pop(node, None)
+    return have
+
+
+def compare_result(prov: dict, have: dict, result_coords, o):
+    """Compare every computed node of the provenance that exists in `result_coords` with the reference.
+    Whatever the implementation returned becomes a verdict, never an exception:
+    returns (all_ok, worst_relative_error, first_bad_node, all_finite)."""
+    import scipp as sc
+
+    ok, worst, bad, fin = True, 0.0, None, True
     for node in prov:
-        if node not in result_coords:
-            continue
-        var = result_coords[node]
         try:
+            if node not in result_coords:
+                continue
+            var = result_coords[node]
             if str(var.unit) != str(sc.Unit(OUT_UNIT[node])):
                 var = var.to(unit=OUT_UNIT[node])
             got = to_np(var, o)
-        except Exception:  # noqa: BLE001
+            if not np.all(np.isfinite(got)):
+                fin = False
+        except Exception:  # noqa: BLE001  (wrong unit, unexpected dims, not a number...)
             ok, worst, bad = False, float('inf'), bad or node
             continue
         good, rel = _close(got, have[node], _ELEM.get(node, 0))
         worst = max(worst, rel)
         if not good:
             ok, bad = False, bad or node
-    return ok, worst, bad
+    return ok, worst, bad, fin
+
+
+def evaluate_provenance(prov: dict, inputs: dict, result_coords, o):
+    """(all_ok, worst_relative_error, first_bad_node) - see reference_values / compare_result"""
+    return compare_result(prov, reference_values(prov, inputs, o), result_coords, o)[:3]
 
 
 # --------------------------------------------------------------------------- graph observation
@@ -357,7 +448,8 @@ def _classify(exc):
 
 def _same_supplied(inp_coords, out_coords):
     """every supplied coordinate is still there with the supplied unit, dtype and values (dimension
-    *names* may change: transform_coords renames the origin dimension)."""
+    *names* may change: transform_coords renames the origin dimension).  `inp_coords` must be deep
+    copies taken before the call: the returned object may share buffers with the operands."""
     for n in inp_coords:
         if n not in out_coords:
             return False
@@ -372,25 +464,47 @@ def _same_supplied(inp_coords, out_coords):
 def _observe_convert(obj, c, prov):
     import scippneutron as scn
 
-    inp = {n: obj.coords[n] for n in obj.coords}
+    # deep snapshot: a kernel that normalises / shifts a supplied coordinate in place changes the caller's
+    # object *and* what comes back; compared with an aliasing view it would look unchanged
+    inp = {n: obj.coords[n].copy() for n in obj.coords}
+    have = reference_values(prov, inp, c['o'])
     try:
         out = scn.convert(obj, origin=c['o'], target=c['t'], scatter=c['s'])
     except Exception as e:  # noqa: BLE001
         return {'out': _classify(e), 'added': (), 'val': True, 'same': True, 'has': False,
-                'worst': 0.0, 'bad': None, 'exc': repr(e)[:200]}
-    added = tuple(sorted(set(out.coords) - set(inp)))
-    val, worst, bad = evaluate_provenance(prov, inp, out.coords, c['o'])
-    return {'out': 'ok', 'added': added, 'val': bool(val), 'same': _same_supplied(inp, out.coords),
-            'has': c['t'] in out.coords, 'worst': worst, 'bad': bad, 'exc': None}
+                'worst': 0.0, 'bad': None, 'fin': True, 'exc': repr(e)[:200]}
+    try:
+        oc = out.coords
+        names = set(oc.keys())
+        added = tuple(sorted(str(n) for n in names - set(inp)))
+        has = c['t'] in names
+    except Exception as e:  # noqa: BLE001  (not a DataArray / Dataset: a verdict, not a harness error)
+        return {'out': 'malformed', 'added': (), 'val': True, 'same': True, 'has': False,
+                'worst': 0.0, 'bad': None, 'fin': True, 'exc': f'result {type(out).__name__}: {e!r}'[:200]}
+    val, worst, bad, fin = compare_result(prov, have, oc, c['o'])
+    try:
+        same = _same_supplied(inp, oc)
+    except Exception:  # noqa: BLE001
+        same = False
+    return {'out': 'ok', 'added': added, 'val': bool(val), 'same': bool(same),
+            'has': bool(has), 'worst': worst, 'bad': bad, 'fin': bool(fin), 'exc': None}
 
 
-def run_case(c, seed):
-    """Execute the real API for one emitted case; returns a plain dict (see c02.py)."""
+def run_case(c, seed, hist='first'):
+    """Execute the real API for one emitted case; returns a plain dict (see c02.py).
+    hist = 'first' | 'replay': a replay is the same case (same values, same layout) with the other
+    order of deduce_conversion_graph / convert, executed again at the end of the run."""
     import scippneutron as scn
 
-    da, ds = build_containers(c, seed)
+    lay = case_layout(c, seed)
+    da, ds = build_containers(c, seed, lay)
     prov = c['prov'] if isinstance(c['prov'], dict) else {}
-    res = {'c': {k: c[k] for k in ('o', 't', 's', 'm', 'x')}, 'prov': tuple(sorted(prov.items()))}
+    res = {'c': {k: c[k] for k in ('o', 't', 's', 'm', 'x')}, 'prov': tuple(sorted(prov.items())),
+           'layout': {k: v for k, v in lay.items() if k != 'perm'}}
+    convert_first = (lay['order'] == 'convert_first') != (hist == 'replay')
+    if convert_first:
+        res['da'] = _observe_convert(da, c, prov)
+        res['ds'] = _observe_convert(ds, c, prov)
     # the reported graph, and that it is a private copy
     try:
         g = scn.deduce_conversion_graph(da, origin=c['o'], target=c['t'], scatter=c['s'])
@@ -405,29 +519,34 @@ def run_case(c, seed):
         res['graph'] = None
         res['copy'] = True
         res['dg_exc'] = repr(e)[:200]
-    res['da'] = _observe_convert(da, c, prov)
-    res['ds'] = _observe_convert(ds, c, prov)
+    if not convert_first:
+        res['da'] = _observe_convert(da, c, prov)
+        res['ds'] = _observe_convert(ds, c, prov)
     return res
 
 
 def run_cases(args):
     """Worker entry: `lines` are JSON records emitted by Emit_ConvertGraph.  Returns a compact,
     picklable summary per case plus the distinct reported graphs of this chunk:
-        (o, t, s, m, x, expected_outcome, prov_pairs, g, copy, da, ds)
+        (o, t, s, m, x, expected_outcome, prov_pairs, g, copy, da, ds, layout_tag)
     g = index into the chunk's graph list, -1 = RuntimeError, -2 = other exception;
-    da / ds = (out, added, val, same, has, worst)."""
+    da / ds = (out, added, val, same, has, worst, fin)."""
     import json
     import warnings
 
-    lines, seed = args
+    lines, seed = args[0], args[1]
+    hist = args[2] if len(args) > 2 else 'first'
     warnings.simplefilter('ignore')
     graphs, gindex, out = [], {}, []
     for line in lines:
         c = json.loads(line)
         try:
-            r = run_case(c, seed)
+            r = run_case(c, seed, hist)
         except Exception as e:  # noqa: BLE001  (harness problem, not a verdict)
-            out.append(('harness_error', {k: c[k] for k in ('o', 't', 's', 'm', 'x')}, repr(e)[:300]))
+            import traceback
+
+            out.append(('harness_error', {k: c[k] for k in ('o', 't', 's', 'm', 'x')},
+                        repr(e)[:300] + traceback.format_exc()[-500:]))
             continue
         if r['dg'] == 'ok':
             g = gindex.get(r['graph'])
@@ -436,9 +555,10 @@ def run_cases(args):
                 graphs.append(r['graph'])
         else:
             g = -1 if r['dg'] == 'RuntimeError' else -2
-        obs = tuple((r[k]['out'], r[k]['added'], r[k]['val'], r[k]['same'], r[k]['has'], r[k]['worst'])
-                    for k in ('da', 'ds'))
-        out.append((c['o'], c['t'], c['s'], c['m'], c['x'], c['outcome'], r['prov'], g, r['copy'], obs[0], obs[1]))
+        obs = tuple((r[k]['out'], r[k]['added'], r[k]['val'], r[k]['same'], r[k]['has'], r[k]['worst'],
+                     r[k]['fin']) for k in ('da', 'ds'))
+        out.append((c['o'], c['t'], c['s'], c['m'], c['x'], c['outcome'], r['prov'], g, r['copy'], obs[0], obs[1],
+                    layout_tag(r['layout'])))
     return out, graphs
 
 
@@ -453,9 +573,100 @@ EVENT_VARIANTS = (
     ('wavelength', 'Q', True, None), ('wavelength', 'Q_vec', True, None),
     ('energy', 'wavelength', True, None), ('energy', 'dspacing', True, None),
     ('Q', 'wavelength', True, None),
+    # hardening round: the remaining elastic targets ("all elastic and inelastic targets")
+    ('tof', 'time_at_sample', True, None), ('tof', 'hkl_vec', True, None), ('tof', 'l', True, None),
+    ('wavelength', 'hkl_vec', True, None), ('wavelength', 'Qz', True, None),
 )
 EVENT_DTYPES = ('float64', 'float32', 'int64', 'int32')
 GEOM_MODES = ('positions', 'derived', 'beams')
+HKL_TARGETS = ('hkl_vec', 'h', 'k', 'l')
+
+# units an operand may come in, with the factor canonical -> unit (input generation only: the values are
+# drawn in the canonical unit's range and rescaled, the reference is the dense conversion of the same numbers)
+UNIT_CHOICES = {
+    'tof': (('us', 1.0), ('ns', 1.0e3), ('ms', 1.0e-3)),
+    'wavelength': (('angstrom', 1.0), ('nm', 0.1)),
+    'energy': (('meV', 1.0), ('ueV', 1.0e3), ('eV', 1.0e-3)),
+    'Q': (('1/angstrom', 1.0), ('1/nm', 10.0)),
+    'length': (('m', 1.0), ('mm', 1.0e3), ('cm', 1.0e2)),
+    'angle': (('rad', 1.0), ('deg', 180.0 / np.pi)),
+    'inel': (('meV', 1.0), ('eV', 1.0e-3)),
+}
+# integer event coordinates keep enough distinct values only in these units
+INT_UNITS = {'tof': ('us', 'ns'), 'wavelength': ('angstrom',), 'energy': ('meV', 'ueV'), 'Q': ('1/angstrom', '1/nm')}
+OTHER_TARGET = {'tof': ('wavelength', 'energy'), 'wavelength': ('energy', 'Q'), 'energy': ('wavelength', 'dspacing')}
+EVENT_HISTS = ('first', 'after_same_call', 'after_other_target', 'before_other_call', 'replay')
+
+
+def event_opts(rng, lay, var, ev_dtype, geom):
+    """Hardening options of one event-mode case (HARDENING items 1, 2, 3, 5, 6, 7, 8), drawn from the driver's
+    seeded random.Random.  Every option stays inside "all binned layouts ... event coordinates in
+    float32 / float64 / int, geometry per pixel"; what the dense conversion refuses is 'unsupported'."""
+    o, t, _scatter, _inel = var
+    kind, R = lay['kind'], lay['R']
+
+    def unit(q, p=0.5, allowed=None):
+        ch = [u for u in UNIT_CHOICES[q] if allowed is None or u[0] in allowed]
+        return list(ch[0] if rng.random() >= p else rng.choice(ch))
+
+    is_int = ev_dtype.startswith('int')
+    opts = {
+        'uev': unit(o, 0.5, INT_UNITS[o] if is_int else None),
+        'uedge': unit(o, 0.5),
+        'ulen': [unit('length', 0.4) for _ in range(3)],       # positions / beams share [0]; L1, L2, Ltotal own
+        'uang': unit('angle', 0.3),
+        'uinel': unit('inel', 0.3),
+        'gdtype': 'float32' if rng.random() < 0.3 else 'float64',
+        'wdtype': 'float32' if rng.random() < 0.3 else 'float64',
+        'edtype': rng.choice(['float64', 'float64', 'float64', 'float32', 'int64']),
+        'edges2d': kind == 'pt' and rng.random() < 0.25,
+        # stored as [origin, spectrum].  (A 2-d *pixel* grid whose data and per-pixel geometry have different
+        # dimension orders - e.g. after da.transpose() - is refused by scipp's binned arithmetic with a
+        # VariableError while the dense conversion works: a refusal, not a wrong answer; not generated.)
+        'transpose': kind == 'pt' and rng.random() < 0.4,
+        'geom_t': False,
+        'view': rng.random() < 0.2,
+        'container': 'ds' if rng.random() < 0.15 else 'da',
+        'squeeze': kind == 'p' and R == 1 and rng.random() < 0.5,
+        'hist': 'first',
+        'pulse': 'event' if (kind != 'pt' and rng.random() < 0.6) else 'dense',
+        'shuffle': rng.random() < 0.5,
+    }
+    if kind == 'pt' and _column_major_contiguous(lay) and rng.random() < 0.8:
+        # the buffer of a transposed array is contiguous in column-major order: this layout is what
+        # transposing a freshly binned [origin, spectrum] array looks like - store it that way
+        opts['transpose'] = True
+    u = rng.random()
+    if u < 0.10:
+        opts['hist'] = 'after_same_call'
+    elif u < 0.20 and o in OTHER_TARGET:
+        opts['hist'] = 'after_other_target'
+    elif u < 0.30:
+        opts['hist'] = 'before_other_call'
+    if t == 'time_at_sample':       # pulse_time + tof: the two must share a unit, in the events and on the edges
+        opts['uedge'] = list(opts['uev'])
+    if opts['edtype'] == 'int64' and opts['uedge'][0] not in INT_UNITS[o]:
+        opts['uedge'] = list(UNIT_CHOICES[o][0])
+    return opts
+
+
+def _column_major_contiguous(lay):
+    """the bins tile the buffer without gaps when visited column by column"""
+    R, C = lay['R'], lay['C']
+    cur = 0
+    for c in range(C):
+        for r in range(R):
+            b = r * C + c
+            if lay['bg'][b] != cur:
+                return False
+            cur = lay['en'][b]
+    return cur == lay['N'] and R > 1 and C > 1
+
+
+CANON_OPTS = {'uev': None, 'uedge': None, 'ulen': [['m', 1.0]] * 3, 'uang': ['rad', 1.0], 'uinel': ['meV', 1.0],
+              'gdtype': None, 'wdtype': None, 'edtype': 'float64', 'edges2d': False, 'transpose': False,
+              'geom_t': False, 'view': False, 'container': 'da', 'squeeze': False, 'hist': 'first',
+              'pulse': 'dense', 'shuffle': False}
 
 
 def _distinct(rng, n, lo, hi, dtype, near=None):
@@ -491,22 +702,52 @@ def pixel_dims(kind, o):
     return {'p': ('spectrum',), 'pt': ('spectrum',), 'pp': ('y', 'x')}[kind]
 
 
-def build_binned(lay, var, ev_dtype, geom, seed):
-    """A real binned DataArray for layout `lay` (dict kind,R,C,N,bg,en) and the variant.
-    Returns (da, info) where info holds the dense 'slot table' inputs."""
+def _padded(lay, rng):
+    """the layout as the interior of a larger bin grid (one more bin at both ends of every grid dimension);
+    the bins of the rim own slots behind the N slots of the layout"""
+    kind, R, C, N = lay['kind'], lay['R'], lay['C'], lay['N']
+    RB, CB = R + 2, (1 if kind == 'p' else C + 2)
+    bg = np.zeros((RB, CB), dtype='int64')
+    en = np.zeros((RB, CB), dtype='int64')
+    cur = N
+    c0 = 0 if kind == 'p' else 1
+    for r in range(RB):
+        for c in range(CB):
+            if 1 <= r <= R and c0 <= c < c0 + C:
+                b = (r - 1) * C + (c - c0)
+                bg[r, c], en[r, c] = lay['bg'][b], lay['en'][b]
+            else:
+                size = int(rng.integers(0, 3))
+                bg[r, c], en[r, c] = cur, cur + size
+                cur += size
+    return RB, CB, cur, bg.reshape(-1).tolist(), en.reshape(-1).tolist()
+
+
+def build_binned(lay, var, ev_dtype, geom, seed, opts=None, salt=0):
+    """A real binned DataArray for layout `lay` (dict kind,R,C,N,bg,en), the variant and the hardening
+    options.  Returns (obj, da, info): obj is what convert() is called with (the DataArray or a Dataset
+    holding it), info holds the dense 'slot table' inputs and the effective layout (a view has more slots)."""
     import scipp as sc
 
+    op = dict(CANON_OPTS)
+    op.update(opts or {})
     o, t, scatter, inel = var
-    kind, R, C, N = lay['kind'], lay['R'], lay['C'], lay['N']
-    rng = np.random.default_rng([seed & 0xFFFFFFFF, zlib.crc32(json_key(lay, var, ev_dtype, geom))])
+    kind, R, C = lay['kind'], lay['R'], lay['C']
+    rng = np.random.default_rng([seed & 0xFFFFFFFF, zlib.crc32(json_key(lay, var, ev_dtype, geom)), salt])
+    uev = op['uev'] or [ORIGIN_UNIT[o], 1.0]
+    uedge = op['uedge'] or [ORIGIN_UNIT[o], 1.0]
     lo, hi = {'tof': (300.0, 5.0e4) if inel else (1.0e3, 5.0e4), 'wavelength': (1.0, 300.0),
               'energy': (2.0, 400.0), 'Q': (1.0, 300.0)}[o]
-    wdt = 'float32' if ev_dtype == 'float32' else 'float64'
+    if op['view']:
+        RB, CB, N, bgl, enl = _padded(lay, rng)
+    else:
+        RB, CB, N, bgl, enl = R, C, lay['N'], list(lay['bg']), list(lay['en'])
+    wdt = op['wdtype'] or ('float32' if ev_dtype == 'float32' else 'float64')
     weights = (np.arange(1, N + 1) + rng.uniform(0.1, 0.9, size=N)).astype(wdt)
     variances = (np.arange(1, N + 1) * 0.5 + rng.uniform(0.01, 0.4, size=N)).astype(wdt)
     # geometry first (the event coordinate of inelastic cases is placed around t0, see below)
     pdims = pixel_dims(kind, o)
-    pshape = {'p': (R,), 'pt': (R,), 'pp': (R, C)}[kind]
+    pshape = {'p': (RB,), 'pt': (RB,), 'pp': (RB, CB)}[kind]
     npix = int(np.prod(pshape))
     sample = rng.uniform(-0.5, 0.5, size=3)
     source = sample + np.array([0.0, 0.0, -1.0]) * rng.uniform(5.0, 20.0) + rng.uniform(-0.3, 0.3, size=3)
@@ -523,44 +764,57 @@ def build_binned(lay, var, ev_dtype, geom, seed):
         else:
             t0 = np.linalg.norm(pos - sample, axis=-1) * np.sqrt(mn / (2 * e_fin * mev)) * 1e6
         near = (0.3 * float(t0.min()), 1.4 * float(t0.max()))
-    ovals = _distinct(rng, N, lo, hi, ev_dtype, near)
+
+    def scaled(f, nr):
+        return None if nr is None else (nr[0] * f, nr[1] * f)
+
+    ovals = _distinct(rng, N, lo * uev[1], hi * uev[1], ev_dtype, scaled(uev[1], near))
+    ecoords = {o: sc.array(dims=['event'], values=ovals, unit=uev[0], dtype=ev_dtype),
+               'extra': sc.array(dims=['event'], values=np.arange(1, N + 1), unit='s', dtype='int64')}
+    pulse_ev = None
+    if t == 'time_at_sample' and op['pulse'] == 'event':
+        pulse_ev = rng.uniform(0.0, 100.0, size=N) * uev[1]
+        ecoords['pulse_time'] = sc.array(dims=['event'], values=pulse_ev, unit=uev[0])
     table = sc.DataArray(
         sc.array(dims=['event'], values=weights, variances=variances, unit='counts', dtype=wdt),
-        coords={o: sc.array(dims=['event'], values=ovals, unit=ORIGIN_UNIT[o], dtype=ev_dtype),
-                'extra': sc.array(dims=['event'], values=np.arange(1, N + 1), unit='s', dtype='int64')},
-        masks={'em': sc.array(dims=['event'], values=rng.random(N) < 0.3)})
+        coords=ecoords, masks={'em': sc.array(dims=['event'], values=rng.random(N) < 0.3)})
     if kind == 'p':
-        bdims, bshape = ['spectrum'], (R,)
+        bdims, bshape = ['spectrum'], (RB,)
     elif kind == 'pt':
-        bdims, bshape = ['spectrum', o], (R, C)
+        bdims, bshape = ['spectrum', o], (RB, CB)
     else:
-        bdims, bshape = ['y', 'x'], (R, C)
-    begin = sc.array(dims=bdims, values=np.array(lay['bg'], dtype='int64').reshape(bshape), unit=None)
-    end = sc.array(dims=bdims, values=np.array(lay['en'], dtype='int64').reshape(bshape), unit=None)
+        bdims, bshape = ['y', 'x'], (RB, CB)
+    begin = sc.array(dims=bdims, values=np.array(bgl, dtype='int64').reshape(bshape), unit=None)
+    end = sc.array(dims=bdims, values=np.array(enl, dtype='int64').reshape(bshape), unit=None)
     data = sc.bins(begin=begin, end=end, dim='event', data=table)
-    fdt = 'float32' if (ev_dtype == 'float32' and rng.integers(0, 2)) else 'float64'
+    if op['gdtype']:
+        fdt = op['gdtype']
+    else:
+        fdt = 'float32' if (ev_dtype == 'float32' and rng.integers(0, 2)) else 'float64'
+    ul = op['ulen']
 
-    def perpix(v, unit, dtype='float64'):
-        return sc.array(dims=list(pdims), values=np.asarray(v).reshape(pshape), unit=unit, dtype=dtype)
+    def perpix(v, unit, dtype='float64', f=1.0):
+        return sc.array(dims=list(pdims), values=np.asarray(v).reshape(pshape) * f, unit=unit, dtype=dtype)
 
-    def vecpix(v):
-        return sc.vectors(dims=list(pdims), values=np.asarray(v).reshape(*pshape, 3), unit='m')
+    def vecpix(v, u):
+        return sc.vectors(dims=list(pdims), values=np.asarray(v).reshape(*pshape, 3) * u[1], unit=u[0])
 
     geo = {}
     if geom == 'positions':
-        geo['position'] = vecpix(pos)
-        geo['source_position'] = sc.vector(source, unit='m')
-        geo['sample_position'] = sc.vector(sample, unit='m')
+        geo['position'] = vecpix(pos, ul[0])
+        geo['source_position'] = sc.vector(source * ul[0][1], unit=ul[0][0])
+        geo['sample_position'] = sc.vector(sample * ul[0][1], unit=ul[0][0])
     else:
         sb = pos - sample
-        geo['incident_beam'] = sc.vector(sample - source, unit='m')
-        geo['scattered_beam'] = vecpix(sb)
+        geo['incident_beam'] = sc.vector((sample - source) * ul[0][1], unit=ul[0][0])
+        geo['scattered_beam'] = vecpix(sb, ul[0])
         l1 = float(np.linalg.norm(sample - source))
         l2 = np.linalg.norm(sb, axis=-1)
-        geo['L1'] = sc.scalar(l1, unit='m', dtype=fdt)
-        geo['L2'] = perpix(l2, 'm', fdt)
-        geo['Ltotal'] = perpix(l1 + l2 if scatter else np.linalg.norm(pos - source, axis=-1), 'm', fdt)
-        geo['two_theta'] = perpix(_angle(np.broadcast_to(sample - source, sb.shape), sb), 'rad', fdt)
+        geo['L1'] = sc.scalar(l1 * ul[1][1], unit=ul[1][0], dtype=fdt)
+        geo['L2'] = perpix(l2, ul[2][0], fdt, ul[2][1])
+        geo['Ltotal'] = perpix(l1 + l2 if scatter else np.linalg.norm(pos - source, axis=-1), ul[0][0], fdt, ul[0][1])
+        geo['two_theta'] = perpix(_angle(np.broadcast_to(sample - source, sb.shape), sb), op['uang'][0], fdt,
+                                  op['uang'][1])
         if not scatter:
             for k in ('incident_beam', 'scattered_beam', 'L1', 'L2', 'two_theta'):
                 geo.pop(k)
@@ -568,23 +822,58 @@ def build_binned(lay, var, ev_dtype, geom, seed):
             for k in ('L1', 'L2', 'Ltotal', 'two_theta'):
                 geo.pop(k)
     if inel == 'incident_energy':
-        geo['incident_energy'] = sc.scalar(e_in, unit='meV', dtype=fdt)
+        geo['incident_energy'] = sc.scalar(e_in * op['uinel'][1], unit=op['uinel'][0], dtype=fdt)
     elif inel == 'final_energy':
-        geo['final_energy'] = perpix(e_fin, 'meV', fdt)
+        geo['final_energy'] = perpix(e_fin, op['uinel'][0], fdt, op['uinel'][1])
+    if t == 'time_at_sample' and pulse_ev is None:
+        geo['pulse_time'] = sc.scalar(float(rng.uniform(0.0, 100.0)) * uev[1], unit=uev[0])
+    if t in HKL_TARGETS:
+        geo['u_matrix'] = sc.spatial.linear_transform(value=_rot(rng))
+        bm = np.triu(rng.uniform(0.05, 0.2, size=(3, 3))) + np.diag(rng.uniform(0.2, 0.5, size=3))
+        geo['b_matrix'] = sc.spatial.linear_transform(value=bm, unit='1/angstrom')
+        geo['sample_rotation'] = sc.spatial.linear_transform(value=_rot(rng))
+    if op['geom_t']:            # per-pixel geometry stored with the other dimension order than the data
+        for k, v in list(geo.items()):
+            if v.ndim == 2:
+                geo[k] = v.transpose().copy()
     coords = dict(geo)
-    edges = None
     if kind == 'pt':
-        edges = np.sort(_distinct(rng, C + 1, lo, hi, 'float64', near))
-        coords[o] = sc.array(dims=[o], values=edges, unit=ORIGIN_UNIT[o])
+        nrow = RB if op['edges2d'] else 1
+        rows = [np.sort(_distinct(rng, CB + 1, lo * uedge[1], hi * uedge[1], op['edtype'], scaled(uedge[1], near)))
+                for _ in range(nrow)]
+        if op['edges2d']:
+            coords[o] = sc.array(dims=['spectrum', o], values=np.array(rows), unit=uedge[0], dtype=op['edtype'])
+        else:
+            coords[o] = sc.array(dims=[o], values=rows[0], unit=uedge[0], dtype=op['edtype'])
     coords['aux'] = sc.array(dims=[pdims[0]], values=rng.uniform(0, 1, size=pshape[0]), unit='K')
     coords['run'] = sc.scalar(int(rng.integers(1, 10**6)), unit=None)
+    if op['shuffle']:
+        names = list(coords)
+        coords = {names[i]: coords[names[i]] for i in rng.permutation(len(names)).tolist()}
     masks = {'pm': sc.array(dims=list(pdims), values=(rng.random(pshape) < 0.3))}
     if kind == 'pt':
         masks['bm'] = sc.array(dims=bdims, values=(rng.random(bshape) < 0.3))
     da = sc.DataArray(data, coords=coords, masks=masks)
-    info = {'geo': geo, 'ovals': ovals, 'edges': edges, 'pdims': pdims, 'pshape': pshape, 'bdims': bdims,
-            'bshape': bshape, 'weights': weights, 'variances': variances}
-    return da, info
+    if op['view']:              # the layout is the interior of a larger array: strided begin / end, offset slots
+        for d in bdims:
+            da = da[d, 1:-1]
+    if op['squeeze']:           # a single pixel as a 0-d binned array with scalar geometry
+        da = da['spectrum', 0]
+        pdims, bdims = (), []
+    if op['transpose']:
+        da = da.transpose()
+    pshape = tuple(da.sizes[d] for d in pdims)
+    edges = None
+    if kind == 'pt':
+        ec = da.coords[o]
+        edges = np.asarray(ec.values if ec.ndim == 1 else ec.transpose(['spectrum', o]).values)
+    info = {'geo': {k: da.coords[k].copy() for k in geo}, 'ovals': ovals, 'edges': edges, 'pdims': tuple(pdims),
+            'pshape': pshape, 'bdims': list(bdims), 'weights': weights, 'variances': variances, 'N': N,
+            'uev': uev[0], 'uedge': uedge[0], 'pulse_ev': pulse_ev, 'edges2d': bool(op['edges2d'])}
+    obj = da
+    if op['container'] == 'ds':
+        obj = sc.Dataset({'a': da})
+    return obj, da, info
 
 
 def json_key(lay, var, ev_dtype, geom):
@@ -617,7 +906,7 @@ def _canon(x):
     return tuple('nan' if (c != c) else float(c) for c in a.tolist())
 
 
-def dense_table(info, var, o, slot_vals, slot_dim, names):
+def dense_table(info, var, o, slot_vals, slot_dim, names, unit=None, pulse=None):
     """Dense conversion *of the implementation* for the (pixel x slot) table: a dense DataArray with
     the same per-pixel geometry and the slot values along `slot_dim`.  Returns name -> (array of
     shape pshape + (nslot,) [+ (3,)], unit string, dtype string)."""
@@ -629,7 +918,9 @@ def dense_table(info, var, o, slot_vals, slot_dim, names):
     n = len(slot_vals)
     data = sc.zeros(dims=[*pdims, slot_dim], shape=[*pshape, n], unit='counts')
     coords = {k: v.copy() for k, v in info['geo'].items()}   # private copies: the oracle shares nothing
-    coords[o] = sc.array(dims=[slot_dim], values=slot_vals, unit=ORIGIN_UNIT[o], dtype=slot_vals.dtype)
+    coords[o] = sc.array(dims=[slot_dim], values=slot_vals, unit=unit or ORIGIN_UNIT[o], dtype=slot_vals.dtype)
+    if pulse is not None:
+        coords['pulse_time'] = sc.array(dims=[slot_dim], values=pulse, unit=unit or ORIGIN_UNIT[o])
     dense = sc.DataArray(data, coords=coords)
     conv = scn.convert(dense, origin=o, target=t, scatter=scatter)
     out = {}
@@ -647,7 +938,7 @@ def dense_table(info, var, o, slot_vals, slot_dim, names):
 
 def _flat_bins(binned_var, in_dims):
     """(begin, end, buffer DataArray) of a binned variable with begin/end flattened in the row-major
-    order of the *input* dims (a renamed dimension is matched by position)."""
+    order of `in_dims` (a renamed dimension is matched by position)."""
     cons = binned_var.bins.constituents
     b, e = cons['begin'], cons['end']
     if len(b.dims) != len(in_dims):
@@ -666,33 +957,67 @@ def _flat_bins(binned_var, in_dims):
     return bb, ee, cons['data']
 
 
+def _item(obj):
+    """the data array of the container convert() was called with"""
+    import scipp as sc
+
+    return obj['a'] if isinstance(obj, sc.Dataset) else obj
+
+
 def run_event_case(case, seed):
     """Execute one event-mode conversion and project the result to ids (see Trace_EventMode.tla)."""
     import scipp as sc
     import scippneutron as scn
 
     lay, var, ev_dtype, geom = case['lay'], tuple(case['var']), case['dtype'], case['geom']
+    opts = dict(CANON_OPTS)
+    opts.update(case.get('opts') or {})
+    hist = case.get('hist') or opts['hist']
     o, t, scatter, inel = var
-    kind, R, C, N = lay['kind'], lay['R'], lay['C'], lay['N']
+    kind, R, C = lay['kind'], lay['R'], lay['C']
     B = R * C
+    obj, da, info = build_binned(lay, var, ev_dtype, geom, seed, opts)
+    N = info['N']
     ev = {'ev': 'conv', 'tid': case['tid'], 'kind': kind, 'R': R, 'C': C, 'N': N, 'bg': list(lay['bg']),
-          'en': list(lay['en']), 'out': 'ok', 'bins': [], 'edges': [],
+          'en': list(lay['en']), 'out': 'ok', 'hist': hist, 'bins': [], 'edges': [],
           'same': {'masks': True, 'evmasks': True, 'coords': True, 'evcoord': True, 'input': True}}
+    flags = [k for k in ('edges2d', 'transpose', 'geom_t', 'view', 'squeeze') if opts[k]]
+    if opts['container'] == 'ds':
+        flags.append('Dataset')
     meta = {'variant': f"{o}->{t}, scatter={scatter}" + (f", {inel}" if inel else ''), 'dtype': ev_dtype,
-            'geom': geom, 'kind': kind, 'note': None, 'new_event_coords': []}
-    da, info = build_binned(lay, var, ev_dtype, geom, seed)
-    snap = da.copy(deep=True)
+            'geom': geom, 'kind': kind, 'note': None, 'new_event_coords': [], 'layout_flags': flags,
+            'units': {'event': info['uev'], 'edges': info['uedge'] if kind == 'pt' else None,
+                      'lengths': [u[0] for u in opts['ulen']], 'angle': opts['uang'][0], 'inelastic': opts['uinel'][0]},
+            'dtypes': {'geometry': opts['gdtype'], 'weights': opts['wdtype'],
+                       'edges': opts['edtype'] if kind == 'pt' else None}}
+    snap = obj.copy(deep=True)
+    snap_da = _item(snap)
     snap_buf = da.bins.constituents['data'].copy(deep=True)
+    edge_slots = None
+    if kind == 'pt':
+        edge_slots = np.ascontiguousarray(info['edges']).reshape(-1)
     # --- the dense reference of the implementation (pixel x slot table, pixel x edge table)
     try:
-        probe = dense_table(info, var, o, info['ovals'], 'slot', ())
-        del probe
+        dense_table(info, var, o, info['ovals'], 'slot', (), info['uev'], info['pulse_ev'])
+        if edge_slots is not None:
+            dense_table(info, var, o, edge_slots, 'edge', (), info['uedge'])
         dense_ok = True
     except Exception as e:  # noqa: BLE001
         dense_ok = False
         meta['note'] = f'dense conversion refuses these operands: {type(e).__name__}'
+    # --- history before the judged call (HARDENING item 6): the same object is converted first
+    if hist == 'after_same_call' or (hist == 'after_other_target' and o not in OTHER_TARGET):
+        try:
+            scn.convert(obj, origin=o, target=t, scatter=scatter)
+        except Exception:  # noqa: BLE001
+            pass
+    elif hist == 'after_other_target':
+        try:
+            scn.convert(obj, origin=o, target=[x for x in OTHER_TARGET[o] if x != t][0], scatter=scatter)
+        except Exception:  # noqa: BLE001
+            pass
     try:
-        out = scn.convert(da, origin=o, target=t, scatter=scatter)
+        out = scn.convert(obj, origin=o, target=t, scatter=scatter)
     except Exception as e:  # noqa: BLE001
         ev['out'] = 'raised' if dense_ok else 'unsupported'
         meta['exc'] = repr(e)[:300]
@@ -700,20 +1025,39 @@ def run_event_case(case, seed):
     if not dense_ok:
         ev['out'] = 'unsupported'
         return ev, meta
-    in_dims = list(da.dims)
+    if hist == 'before_other_call':
+        # a later call with other data of the same shape must not reach into what was already returned
+        try:
+            twin, _, _ = build_binned(lay, var, ev_dtype, geom, seed, opts, salt=1)
+            scn.convert(twin, origin=o, target=t, scatter=scatter)
+        except Exception:  # noqa: BLE001
+            pass
+    in_dims = info['bdims']
     try:
+        out = _item(out)
         ob, oe, obuf = _flat_bins(out.data, in_dims)
-        ib, ie, ibuf = _flat_bins(snap.data, in_dims)
-    except Exception as e:  # noqa: BLE001
-        ev['out'] = 'raised'
+        ib, ie, ibuf = _flat_bins(snap_da.data, in_dims)
+        new_ev = [str(n) for n in obuf.coords if n not in ibuf.coords]
+        has_var = obuf.variances is not None
+        wv = np.asarray(obuf.values)
+        vv = np.asarray(obuf.variances) if has_var else None
+        xv = np.asarray(obuf.coords['extra'].values) if 'extra' in obuf.coords else None
+        ocols = {n: (np.asarray(obuf.coords[n].values), str(obuf.coords[n].unit), str(obuf.coords[n].dtype))
+                 for n in obuf.coords}
+        omasks = {str(n): np.asarray(obuf.masks[n].values) for n in obuf.masks.keys()}
+        nbuf = len(wv)
+        if len(ob) != len(oe) or any(int(a) < 0 or int(b_) > nbuf or int(a) > int(b_) for a, b_ in zip(ob, oe)) \
+                or any(len(col[0]) != nbuf for col in ocols.values()) or (xv is not None and len(xv) != nbuf):
+            raise ValueError('bin indices reach outside the event buffer')
+    except Exception as e:  # noqa: BLE001  (whatever came back is a verdict, not a harness error)
+        ev['out'] = 'malformed'
         meta['exc'] = 'result is not a binned array over the same grid: ' + repr(e)[:200]
         return ev, meta
-    new_ev = [n for n in obuf.coords if n not in ibuf.coords]
     meta['new_event_coords'] = sorted(new_ev)
     names = sorted(set(new_ev) | {t})
-    tab = dense_table(info, var, o, info['ovals'], 'slot', names)
+    tab = dense_table(info, var, o, info['ovals'], 'slot', names, info['uev'], info['pulse_ev'])
     # id dictionaries
-    npix = int(np.prod(info['pshape']))
+    npix = int(np.prod(info['pshape'])) if info['pshape'] else 1
     lookup = {}
     for name, (arr, unit, dtype) in tab.items():
         a = arr.reshape(npix, N, *arr.shape[len(info['pshape']) + 1:])
@@ -724,49 +1068,46 @@ def run_event_case(case, seed):
         lookup[name] = (d, unit, dtype)
     wmap = {float(w): i + 1 for i, w in enumerate(info['weights'].tolist())}
     vmap = {float(v): i + 1 for i, v in enumerate(info['variances'].tolist())}
-    has_var = obuf.variances is not None
-    wv = np.asarray(obuf.values)
-    vv = np.asarray(obuf.variances) if has_var else None
-    xv = np.asarray(obuf.coords['extra'].values) if 'extra' in obuf.coords else None
     if len(ob) != B:
         ev['bins'] = []
         return ev, meta
     # the property does not promise that the origin event coordinate is kept; if it is, it is unchanged
-    keeps_origin = o in obuf.coords
-    evcoord_ok = (not keeps_origin) or (str(obuf.coords[o].unit) == str(ibuf.coords[o].unit)
-                                        and obuf.coords[o].dtype == ibuf.coords[o].dtype)
-    evmask_ok = set(obuf.masks.keys()) == set(ibuf.masks.keys())
+    keeps_origin = o in ocols
+    evcoord_ok = (not keeps_origin) or (ocols[o][1] == str(ibuf.coords[o].unit)
+                                        and ocols[o][2] == str(ibuf.coords[o].dtype))
+    evmask_ok = set(omasks) == {str(n) for n in ibuf.masks.keys()}
+    same_wdtype = str(obuf.dtype) == str(ibuf.dtype) and str(obuf.unit) == str(ibuf.unit)
     for b in range(B):
         lo_, hi_ = int(ob[b]), int(oe[b])
         rec = {'r': [], 'w': [], 'v': [], 'x': []}
         for k in range(lo_, hi_):
-            rec['w'].append(wmap.get(float(wv[k]), 0) if str(obuf.dtype) == str(ibuf.dtype) else 0)
+            rec['w'].append(wmap.get(float(wv[k]), 0) if same_wdtype else 0)
             rec['v'].append(vmap.get(float(vv[k]), 0) if has_var else 0)
             rec['x'].append(int(xv[k]) if xv is not None else 0)
             # the event is accepted for id <<p, i>> iff *every* new event coordinate has the dense value
             cands = None
             for name in names:
-                if name not in obuf.coords or name not in lookup:
+                if name not in ocols or name not in lookup:
                     cands = set()
                     break
                 d, unit, dtype = lookup[name]
-                c = obuf.coords[name]
-                if str(c.unit) != unit or str(c.dtype) != dtype:
+                col, cunit, cdtype = ocols[name]
+                if cunit != unit or cdtype != dtype:
                     cands = set()
                     break
-                got = {tuple(x) for x in d.get(_canon(np.asarray(c.values)[k]), [])}
+                got = {tuple(x) for x in d.get(_canon(col[k]), [])}
                 cands = got if cands is None else (cands & got)
             rec['r'].append(sorted(map(list, cands or ())))
         ev['bins'].append(rec)
         if evcoord_ok and keeps_origin:
             n_in = int(ie[b]) - int(ib[b])
-            a = np.asarray(obuf.coords[o].values)[lo_:hi_]
+            a = ocols[o][0][lo_:hi_]
             bb = np.asarray(ibuf.coords[o].values)[int(ib[b]):int(ie[b])]
             if hi_ - lo_ != n_in or not np.array_equal(a, bb):
                 evcoord_ok = False
         if evmask_ok:
             for mname in ibuf.masks.keys():
-                a = np.asarray(obuf.masks[mname].values)[lo_:hi_]
+                a = omasks[str(mname)][lo_:hi_]
                 bb = np.asarray(ibuf.masks[mname].values)[int(ib[b]):int(ie[b])]
                 if not np.array_equal(a, bb):
                     evmask_ok = False
@@ -774,35 +1115,45 @@ def run_event_case(case, seed):
     ev['same']['evmasks'] = bool(evmask_ok)
     # --- bin-edge coordinate: same function
     if kind == 'pt':
-        et = dense_table(info, var, o, info['edges'], 'edge', [t])
-        if t in out.coords and t in et:
-            arr, unit, dtype = et[t]
-            c = out.coords[t]
-            a = arr.reshape(R, C + 1, *arr.shape[2:])
-            d = {}
-            for p in range(R):
-                for j in range(C + 1):
-                    d.setdefault(_canon(a[p, j]), []).append([p + 1, j + 1])
-            try:
+        try:
+            et = dense_table(info, var, o, edge_slots, 'edge', [t], info['uedge'])
+            if t in out.coords and t in et:
+                arr, unit, dtype = et[t]
+                c = out.coords[t]
+                nslot = len(edge_slots)
+                a = arr.reshape(R, nslot, *arr.shape[2:])
+                d = {}
+                for p in range(R):
+                    for q in range(nslot):
+                        if info['edges2d']:
+                            if q // (C + 1) != p:     # the slots of another pixel's edges are not ids of this table
+                                continue
+                            ident = [p + 1, q % (C + 1) + 1]
+                        else:
+                            ident = [p + 1, q + 1]
+                        d.setdefault(_canon(a[p, q]), []).append(ident)
                 other = [x for x in c.dims if x != 'spectrum']
                 g = _np_in_order(c, ['spectrum', other[0]] if other else ['spectrum', '_'])
                 g = np.broadcast_to(g, (R, C + 1, *g.shape[2:]))
                 good = str(c.unit) == unit and str(c.dtype) == dtype
                 ev['edges'] = [[sorted(d.get(_canon(g[p, j]), [])) if good else [] for j in range(C + 1)]
                                for p in range(R)]
-            except Exception as e:  # noqa: BLE001
-                meta['edge_note'] = repr(e)[:200]
-                ev['edges'] = []
+        except Exception as e:  # noqa: BLE001
+            meta['edge_note'] = repr(e)[:200]
+            ev['edges'] = []
     # --- UNCHANGED clauses from snapshots
     def vals_equal(a, b):
         return str(a.unit) == str(b.unit) and a.dtype == b.dtype and a.shape == b.shape and \
             np.array_equal(np.asarray(a.values), np.asarray(b.values))
 
-    ev['same']['masks'] = set(out.masks.keys()) == set(snap.masks.keys()) and all(
-        vals_equal(out.masks[m], snap.masks[m]) for m in snap.masks.keys())
-    ev['same']['coords'] = all(n in out.coords and vals_equal(out.coords[n], snap.coords[n])
-                               for n in ('aux', 'run'))
-    ev['same']['input'] = bool(sc.identical(da, snap)) and bool(
+    try:
+        ev['same']['masks'] = set(out.masks.keys()) == set(snap_da.masks.keys()) and all(
+            vals_equal(out.masks[m], snap_da.masks[m]) for m in snap_da.masks.keys())
+        ev['same']['coords'] = all(n in out.coords and vals_equal(out.coords[n], snap_da.coords[n])
+                                   for n in ('aux', 'run'))
+    except Exception:  # noqa: BLE001
+        ev['same']['masks'] = False
+    ev['same']['input'] = bool(sc.identical(obj, snap)) and bool(
         sc.identical(da.bins.constituents['data'], snap_buf))
     return ev, meta
 
